@@ -99,3 +99,68 @@ func blackholeScenarios(c *lib.Ctx, healthy []*healthyBackend) {
 		}
 	}
 }
+
+// clientAbortScenarios: a client that goes away while the only healthy backend
+// is still working on its request has told the proxy nothing about that
+// backend. The next client's request finds the same healthy backend available
+// and is answered by it (the other backend refuses connections).
+func clientAbortScenarios(c *lib.Ctx, healthy []*healthyBackend) {
+	pols := []string{"first", "round_robin", "least_conn", "random", "ip_hash"}
+	dead, closeDead := startFaulty(bClosed, new(int64))
+	defer closeDead()
+	port := lib.FreePort()
+	var cf bytes.Buffer
+	fmt.Fprintf(&cf, "127.0.0.1:%d {\n", port)
+	for i, pol := range pols {
+		hosts := []string{"http://" + dead, "http://" + healthy[i%len(healthy)].ln.Addr().String()}
+		if i%2 == 1 {
+			hosts[0], hosts[1] = hosts[1], hosts[0]
+		}
+		fmt.Fprintf(&cf, " proxy /ca%d %s {\n  policy %s\n  try_duration 2s\n  try_interval 10ms\n  fail_timeout 30s\n  max_fails 1\n }\n", i, strings.Join(hosts, " "), pol)
+	}
+	cf.WriteString("}\n")
+	inst, err := lib.Start(cf.String(), "")
+	if err != nil {
+		c.Inconclusive("client-abort scenarios: cannot start: " + err.Error())
+		return
+	}
+	defer lib.StopWait(inst)
+	addr := fmt.Sprintf("127.0.0.1:%d", port)
+	for i, pol := range pols {
+		hb := healthy[i%len(healthy)]
+		// a first client whose request reaches the healthy backend and who hangs
+		// up while that backend is still working
+		h0 := atomic.LoadInt64(&hb.hits)
+		k, err := lib.Dial(addr)
+		if err != nil {
+			c.Inconclusive("client-abort scenarios: dial: " + err.Error())
+			return
+		}
+		k.Raw().Write(lib.BuildReq("GET", fmt.Sprintf("/ca%d/slow", i), addr, nil, "X-Verif-Rid: ca-slow-"+fmt.Sprint(i), "X-Verif-Delay: 3s", "X-Key: k"))
+		reached := false
+		for w := 0; w < 3000 && !reached; w++ {
+			reached = atomic.LoadInt64(&hb.hits) > h0
+			if !reached {
+				time.Sleep(time.Millisecond)
+			}
+		}
+		k.Close() // RST: the client is gone
+		if !reached {
+			c.Inconclusive(fmt.Sprintf("client-abort scenario %s: the first request never reached the healthy backend", pol))
+			continue
+		}
+		time.Sleep(150 * time.Millisecond) // let the proxy notice
+		for rep := 0; rep < 3; rep++ {
+			r := lib.Once(addr, "GET", fmt.Sprintf("/ca%d/next?k=%d", i, rep), addr, "X-Verif-Rid: ca-next-"+fmt.Sprint(i, "-", rep), "X-Key: k")
+			c.Eval(1)
+			c.Count("e2e_requests_after_a_client_abort", 1)
+			c.Nontrivial(fmt.Sprintf("e2e/client-abort/%s/%d", pol, rep))
+			wit := map[string]interface{}{"policy": pol, "backends": []string{"refuses connections", "healthy (was serving a request whose client hung up)"}, "status": r.Status}
+			if r.Err != nil {
+				c.Violation("C05/e2e-transport-error", "client-abort scenario: "+r.Err.Error(), wit)
+			} else if r.Status != 200 {
+				c.Violation("C05/e2e-not-answered-by-healthy/"+polKey(pol), fmt.Sprintf("status %d although a healthy backend exists (policy %s): the only thing that happened to it is that an earlier client hung up while it was working", r.Status, pol), wit)
+			}
+		}
+	}
+}
